@@ -756,7 +756,7 @@ fn s5<M: Machine>(nonpositive_only: bool) {
         let fp = M::fingerprint(&st);
         // (a slot leaves the sequential replay when the library rejected a non-finite record of a
         // two-stream delivery: what was absorbed before the rejection is then unspecified)
-        if probe.last().map(|p| p.as_str()) == Some("<no such slot>") {
+        if probe.last().map(|p| p.as_str()) == Some("<no such slot>") || stats.get("nonfinite_record_rejected_at_delivery.slot_dropped") > 0 {
             stats.inc("s5_slot_left_the_replay");
         } else if probe.last() != Some(&fp) {
             violation = Some(Violation::new(&tr.property, "thread-result-differs-from-sequential-replay-of-its-logical-trace", 0, format!("threads computed {fp}, sequential replay computed {:?}", probe.last())));
